@@ -123,6 +123,34 @@ def directed_braces(rng):
     return b
 
 
+def directed_anon_rows(rng):
+    """every strand / super-sequence statement has two to four unnamed regions, so that wherever the process's anonymous counter
+    crosses a decimal boundary (9|10, 99|100) it does so INSIDE one statement"""
+    lines = ["declare component Top: ->", 'sequence a = "5N"', 'sequence b = "4S"']
+    total = {}
+    for j in range(rng.randint(2, 4)):
+        its, n = [], 0
+        for _ in range(rng.randint(2, 4)):
+            m = rng.randint(1, 4); its.append('"%d%s"' % (m, rng.choice("NSWR"))); n += m
+            if rng.random() < 0.4:
+                its.append(rng.choice(["a", "b*"])); n += 5 if its[-1] == "a" else 4
+        if rng.random() < 0.5:
+            extra = rng.randint(1, 3); its.insert(rng.randint(0, len(its)), '"?N"'); n += extra
+            lines.append("%s X%d = %s : %d" % ("strand" if j % 2 == 0 else "sequence", j, " ".join(its), n))
+        else:
+            lines.append("%s X%d = %s" % ("strand" if j % 2 == 0 else "sequence", j, " ".join(its)))
+        total[j] = n
+    strands = [j for j in total if j % 2 == 0]
+    lines.append("strand Y = %s" % " ".join("X%d" % j for j in total if j % 2 == 1) if any(j % 2 == 1 for j in total) else "strand Y = a")
+    for j in strands:
+        lines.append("structure S%d = X%d : %d." % (j, j, total[j]))
+    b = progen.Bundle()
+    b.texts["top.comp"] = "\n".join(lines) + "\n"
+    b.entry = "top"
+    b.directed = True
+    return b
+
+
 def run(st, tier, seed):
     res = Result("C18")
     res.rule = ("accepted programs x {pil, des} x configurations (hash seed, 0-4 earlier compiles in the process, invocation directory); "
@@ -142,6 +170,13 @@ def run(st, tier, seed):
         if i % 4 == 0:
             b = directed_duplicate(rng)
             res.count("directed:duplicate-template-in-two-include-dirs")
+            # the project compiled before it in the same process has a Gate.comp of its own beside its top.sys
+            hb = progen.Bundle()
+            hb.texts["Gate.comp"] = progen.render_comp(progen.CompGen(rng, name="GateH", size=3, nports=(1, 1), port_lens=(4,)).build(), rng)
+            hb.texts["top.sys"] = "declare system H:  -> \nimport Gate\ncomponent h1 = Gate: t0 -> t1\n"
+            hb.entry = "top"
+            hist[0] = hb
+            b.earlier_has_same_template = True
         elif i % 8 == 2:
             b = directed_nested_paths(rng)
             res.count("directed:nested-imports-relative-to-the-importing-file")
@@ -151,6 +186,9 @@ def run(st, tier, seed):
         elif i % 8 == 1:
             b = directed_braces(rng)
             res.count("directed:brace-groups")
+        elif i % 8 == 5:
+            b = directed_anon_rows(rng)
+            res.count("directed:several-anonymous-regions-per-statement")
         if b is None:
             continue
         if not getattr(b, "directed", False) and any(k.endswith(".sys") for k in b.texts) and rng.random() < 0.6:
@@ -229,6 +267,21 @@ def run(st, tier, seed):
                                          "includes": [os.path.relpath(os.path.join(root, "hist%d" % k, x), cwd) for x in hist[k].includes],
                                          "out": os.path.relpath(os.path.join(root, "hist%d" % k, "o.pil"), cwd),
                                          "save": os.path.relpath(os.path.join(root, "hist%d" % k, "o.save"), cwd)}) for k in range(nh)]}
+                    if getattr(b, "earlier_has_same_template", False) and c % 2 == 0:
+                        # the earlier project (its own Gate.comp beside its top.sys) is compiled from THIS directory with the same
+                        # include-list object; afterwards `import Gate` must still find the first include directory's Gate
+                        job["history"] = [{"entry": os.path.relpath(os.path.join(root, "hist0", hist[0].entry), cwd), "includes": [],
+                                           "out": os.path.relpath(os.path.join(root, "hist0", "o.pil"), cwd),
+                                           "save": os.path.relpath(os.path.join(root, "hist0", "o.save"), cwd), "share": True}]
+                        nh = 1
+                        res.count("history:shares-the-include-list-object")
+                    elif job["includes"] and rng.random() < 0.5:
+                        # a script that keeps ONE list of include directories for all its compiles: the same list object goes to the
+                        # earlier compiles (run from this directory, so that relative entries mean the same) and to this one
+                        for h_ in job["history"]:
+                            if not h_.get("cwd"):
+                                h_["share"] = True
+                                res.count("history:shares-the-include-list-object")
                     hs = seeds_cycle[c % 8]
                     runs.append((fmt, c, where, cwd, job, hs, nh))
             for c, k in enumerate(ks):
